@@ -33,7 +33,7 @@ func defaultConst(t *rapid.T) string {
 	case 0:
 		return rapid.SampledFrom([]string{"TRUE", "FALSE"}).Draw(t, "bool")
 	case 1:
-		return rapid.SampledFrom([]string{"'a'", "'b'", "''", "'x''y'", "'12'", "'é'", "'1.5'", "'a''b''c'", "''''", "''''''", "'''a'", "'a'''", "'\"'", "'a\"\"b'"}).Draw(t, "str")
+		return rapid.SampledFrom([]string{"'a'", "'b'", "''", "'x''y'", "'12'", "'é'", "'1.5'", "'a''b''c'", "''''", "''''''", "'''a'", "'a'''", "'\"'", "'a\"\"b'", "'a\u00a0b'", "'x  y'", "'\t'", "'中 文'", "'/* c */'", "'a\u3000'"}).Draw(t, "str")
 	case 2:
 		return rapid.SampledFrom([]string{"0.5", "2.5", "1.", ".25", "1e2", "2.5E-1", "3e+0"}).Draw(t, "flt")
 	default:
